@@ -269,7 +269,10 @@ type DynSpec struct {
 
 func NewDynSpec() *DynSpec { return &DynSpec{RawHLIT: -1, RawHDIST: -1, RawHCLEN: -1, RLE: "greedy"} }
 
-// rle encodes a length sequence.
+// rle encodes a length sequence. Mode "greedy" is what encoders do, "none"
+// spells every length out, "random" picks, at every position, any operator
+// that is legal there (also the ones no encoder would choose: code 16 repeating
+// a zero after a 17/18 run, short runs where a longer one would fit).
 func rle(r *gen.Rand, seq []int, mode string) []CLSym {
 	var out []CLSym
 	i := 0
@@ -279,17 +282,53 @@ func rle(r *gen.Rand, seq []int, mode string) []CLSym {
 		for i+run < len(seq) && seq[i+run] == v {
 			run++
 		}
-		use := mode
 		if mode == "random" {
-			use = []string{"greedy", "none", "partial"}[r.Intn(3)]
+			// candidates: 0 literal, 1 code 16, 2 code 17, 3 code 18
+			cand := []int{0}
+			if i > 0 && seq[i-1] == v && run >= 3 {
+				cand = append(cand, 1, 1)
+			}
+			if v == 0 && run >= 3 {
+				cand = append(cand, 2)
+			}
+			if v == 0 && run >= 11 {
+				cand = append(cand, 3)
+			}
+			switch cand[r.Intn(len(cand))] {
+			case 1:
+				k := run
+				if k > 6 {
+					k = 6
+				}
+				k = r.Range(3, k)
+				out = append(out, CLSym{Sym: 16, Extra: k - 3})
+				i += k
+			case 2:
+				k := run
+				if k > 10 {
+					k = 10
+				}
+				k = r.Range(3, k)
+				out = append(out, CLSym{Sym: 17, Extra: k - 3})
+				i += k
+			case 3:
+				k := run
+				if k > 138 {
+					k = 138
+				}
+				k = r.Range(11, k)
+				out = append(out, CLSym{Sym: 18, Extra: k - 11})
+				i += k
+			default:
+				out = append(out, CLSym{Sym: v})
+				i++
+			}
+			continue
 		}
-		if use == "none" {
+		if mode == "none" {
 			out = append(out, CLSym{Sym: v})
 			i++
 			continue
-		}
-		if use == "partial" && run > 3 {
-			run = r.Range(3, run)
 		}
 		if v == 0 && run >= 3 {
 			if run > 138 {
